@@ -1,6 +1,7 @@
 use crate::fw::*;
 
 pub mod c01_spec;
+pub mod c02_validation;
 pub mod c03_arith;
 pub mod c04_jump;
 pub mod c06_journal;
@@ -17,6 +18,7 @@ pub mod c27_bytecode;
 pub mod c31_reuse;
 pub mod c28_inspectors;
 pub mod c32_blob;
+pub mod c34_access;
 pub mod online;
 pub mod online_props;
 
@@ -26,6 +28,8 @@ pub fn dispatch(ctx: &Ctx) -> i32 {
         "C05" => c05_forks::run(ctx),
         "C11" => c11_memory::run(ctx),
         "C14" => c14_gasformulas::run(ctx),
+        "C02" => c02_validation::run(ctx),
+        "C34" => c34_access::run(ctx),
         "C03" => c03_arith::run(ctx),
         "C04" => c04_jump::run(ctx),
         "C27" => c27_bytecode::run(ctx),
